@@ -114,8 +114,19 @@ def check_cases(cases: list[dict], rep: Report, known: dict) -> None:
             break
         e = wire.build_raw(c["e"])
         p = wire.build_point(c["p"])
-        for q in c.get("prior", []):
-            call(e.at, wire.build_point(q))
+        prior = c.get("prior", [])
+        if prior and len(c["p"]) % 2:
+            # the caller's own Point object: used once, then the expression's nodes are visited elsewhere through
+            # other entry points, then the very same object again
+            from ..core import sm
+            call(e.at, p)
+            vs = sorted(e._variable_names)
+            for k, q in enumerate(prior):
+                qp = wire.build_point(q)
+                call(lambda: sm.LocatedDifferential(e, qp)) if k % 2 else call(lambda: sm.Partial(e, vs[0] if vs else "x").at(qp))
+        else:
+            for q in prior:
+                call(e.at, wire.build_point(q))
         impl = call(e.at, p)
         nc = NumCase((c["e"], c["p"]), f"eval {c['e']} {c['p']}", impl, dict(c, impl=repr(impl)))
         nc.info["_e"] = e
